@@ -199,6 +199,7 @@ IR_MODULE_OF = {}  # filled from RegisterModule on load
 
 
 _PROPERTY_NAMES = set()
+_AMBIGUOUS_CONSTANTS = set()
 
 
 class Program:
@@ -217,6 +218,7 @@ class Program:
     def _load(self):
         seen = set()
         self._prescan_helpers()
+        self._drop_ambiguous_constants()
         self._finish_method_names()
         for root in self.ROOTS:
             top = os.path.join(self.repo, root)
@@ -240,6 +242,11 @@ class Program:
         for rel, src in self.overlay.items():
             if rel not in seen:
                 self.modules[rel] = Module(rel, src)
+
+    def _drop_ambiguous_constants(self):
+        from .normalise import GLOBAL_CONSTANTS
+        for k_ in _AMBIGUOUS_CONSTANTS:
+            GLOBAL_CONSTANTS.pop(k_, None)
 
     def _prescan_helpers(self):
         """assert-like helpers (`_require(cond, msg)`) are recognised before any module is normalised, so that a module which imports
@@ -270,6 +277,16 @@ class Program:
                     for m_ in re.finditer(r"@(?:property|\w+\.setter|\w+\.deleter)\s*\n\s*def (\w+)\(", src):
                         METHOD_NAMES.discard(m_.group(1))
                         _PROPERTY_NAMES.add(m_.group(1))
+                    # module-level constants of the whole program (a sibling module may import them)
+                    if re.search(r"^(_\w+|[A-Z][A-Z0-9_]*) = ", src, re.M):
+                        try:
+                            from .normalise import _module_constants, GLOBAL_CONSTANTS
+                            for k_, v_ in _module_constants(ast.parse(src)).items():
+                                if k_ in GLOBAL_CONSTANTS and ast.dump(GLOBAL_CONSTANTS[k_]) != ast.dump(v_):
+                                    _AMBIGUOUS_CONSTANTS.add(k_)
+                                GLOBAL_CONSTANTS[k_] = v_
+                        except SyntaxError:
+                            pass
                     has_helper = "AssertionError" in src
                     has_deco = "wrapper" in src or "wraps(" in src or "contextmanager" in src
                     if not (has_helper or has_deco):
